@@ -182,9 +182,40 @@ impl Obs {
 
     /// Feed everything that crossed the wire since the last call to every removed party.
     fn feed_removed(&mut self, w: &mut World) -> CaseResult {
-        let new: Vec<(&'static str, Vec<u8>)> = w.wire_log[self.wire_seen..].to_vec();
+        let mut new: Vec<(&'static str, Vec<u8>)> = w.wire_log[self.wire_seen..].to_vec();
         self.wire_seen = w.wire_log.len();
         let removed: Vec<usize> = w.parties.iter().filter(|p| p.status == Status::Removed).map(|p| p.id).collect();
+        // a proposal of the current epoch that needs no group key at all: an outsider's request to be added (signed with its
+        // own key, no membership tag). The members accept it (control); for a removed party it is later traffic like the rest.
+        if !removed.is_empty() && !new.is_empty() {
+            if let Some(m) = w.members().first().copied() {
+                if let Ok(gi) = guard(|| w.parties[m].g().group_info_message(true)) {
+                    let y = w.new_party();
+                    let t = w.now();
+                    let r = {
+                        let joiner = &w.parties[y];
+                        guard(|| joiner.client.external_add_proposal(&gi, None, vec![], Default::default(), Default::default(), Some(t)))
+                    };
+                    match r {
+                        Ok(msg) => {
+                            let bytes = msg.to_bytes().expect("enc");
+                            let mut clone = w.parties[m].g().clone();
+                            match guard(|| clone.process_incoming_message_with_time(mls_rs::MlsMessage::from_bytes(&bytes)?, t)) {
+                                Ok(mls_rs::group::ReceivedMessage::Proposal(_)) => {
+                                    new.push(("proposal", bytes));
+                                    self.ev.class("new_member_proposals_of_a_later_epoch_fed_to_removed_parties");
+                                }
+                                Ok(_) => return Err(fail("new_member_proposal_misreported", String::new())),
+                                Err(e) if e.is_panic() => return Err(panic_failure(P, "process_incoming_message(new member proposal)", &e)),
+                                Err(e) => self.ev.class(&format!("new_member_proposal_refused_by_member:{}", e.class())),
+                            }
+                        }
+                        Err(e) if e.is_panic() => return Err(panic_failure(P, "Client::external_add_proposal", &e)),
+                        Err(e) => self.ev.class(&format!("new_member_proposal_not_built:{}", e.class())),
+                    }
+                }
+            }
+        }
         let member_auth: Option<Vec<u8>> = w.members().first().and_then(|m| w.parties[*m].g().epoch_authenticator().ok().map(|s| s.as_bytes().to_vec()));
         for r in removed {
             let (stuck_epoch, stuck_auth) = match self.stuck.get(&r) {
@@ -248,7 +279,17 @@ impl Observer for Obs {
         // What a removed member still knows is the old epoch's init secret and everything public. With no fresh commit secret
         // (and no PSK) that is all the new epoch is made of: the reference key schedule with commit_secret = 0 must NOT
         // arrive at the members' new epoch authenticator when somebody was removed.
-        if !info.removed.is_empty() {
+        if let Some((leaf, with_path)) = info.kick {
+            self.ev.class(if info.had_path { "kick_commits_with_path" } else { "kick_commits_without_path" });
+            if with_path && !info.had_path {
+                return Err(fail("custom_proposal_declared_to_need_a_path_committed_without", format!("epoch {}: kick of leaf {leaf}", w.epoch)));
+            }
+            if info.removed.is_empty() {
+                return Err(fail("kick_removed_nobody", format!("epoch {}: kick of leaf {leaf}", w.epoch)));
+            }
+        }
+        // (a removal that the application's rules declare path-free is the application's choice: no fresh secret is demanded there)
+        if !info.removed.is_empty() && !(matches!(info.kick, Some((_, false))) && !info.had_path) {
             if let (Some(init), Some(m)) = (self.pre_init_secret.clone(), w.members().first().copied()) {
                 use mls_rs::mls_rs_codec::MlsEncode;
                 let s = crate::refmodel::keysched::Suite::new(w.cfg.suite);
@@ -285,6 +326,7 @@ impl Observer for Obs {
 
 pub fn run(ctx: &Ctx) -> ! {
     let mut hp = HistoryParams::standard(ctx.tier);
+    hp.kicks = true;
     hp.weights = [8, 8, 18, 2, 1, 1, 1, 30, 7, 4, 1, 0];
     hp.cross_decrypt_every = 0;
     let spec = RunSpec {
@@ -304,7 +346,7 @@ pub fn run(ctx: &Ctx) -> ! {
          nodes of the committer's filtered direct path in the NEW exported tree (independent tree model) minus leaves added by this commit; none may be a key of a removed member's \
          leaf/merged path or of a new leaf; seals labelled Welcome must go to exactly the init keys of the key packages of the parties that joined; no other seals. \
          (b) Every removed party keeps its last Group and is fed every later proposal, application message, commit and external commit: each must fail without panic, its epoch and \
-         authenticator stay put and differ from the members'. Non-trivial = a removing commit while the tree has a blank or unmerged leaf, or removed leaf sibling of the committer.",
+         authenticator stay put and differ from the members'. All clients run application rules that expand a 'kick' custom proposal into a local Remove (one kind declared path-free, one declared to need a path): a member whose leaf a commit removes, by value or through a kick, must be told so; removed parties are also fed current-epoch new-member Add proposals (no membership tag; accepted by a member as control). Non-trivial = a removing commit while the tree has a blank or unmerged leaf, or removed leaf sibling of the committer.",
         &hp,
         spec,
         &|_, ev| Obs { ev, pre_tree: None, wire_seen: 0, stuck: BTreeMap::new(), fed: 0, removal_commits_nontrivial: 0, pre_init_secret: None },
